@@ -92,7 +92,7 @@ func c17Oracle(x *dialogx) func(c *dcase, r *drun, base *drun) {
 func c17Scenarios() []*dscenario {
 	var l []*dscenario
 	for _, t := range allDevTypes {
-		for _, f := range []string{"drc", "drc-C", "do-approve", "do-compare"} {
+		for _, f := range []string{"drc", "drc-C", "do-approve", "do-compare", "drc-q", "do-approve-brief", "drc-logfile"} {
 			sc := baseScenario(t, f)
 			sc.pass, sc.key = c17Pass, c17Key
 			l = append(l, sc)
@@ -119,7 +119,7 @@ func c17Worker(ctx *core.Ctx) *core.Result {
 func init() {
 	registerSharded("C17", c17Worker, func(tier string) core.Meta {
 		return core.Meta{ID: "C17", Level: "fault_enumeration",
-			Rule: "5 device types x 4 front ends (+ enable-password / host-key variants) with secrets that contain characters needing URL escaping (password) resp. the full base64 alphabet incl. + / = (API key, XSRF token); baseline (success) plus every single deviation of C09's alphabet at every answer point from the first login step on; after each run every file below the base directory (session logs .login/.config/.change/.cmp, run log, history, status, lock), stdout and stderr are scanned for each secret in plain, query-escaped, path-escaped, XML-escaped, plus-as-blank form and for every 8-byte window of it; non-trivial = runs with a deviation",
+			Rule: "5 device types x 7 front ends (drc, drc -C, drc -q, drc --LOGFILE, do-approve approve / compare, do-approve --brief) (+ enable-password / host-key variants) with secrets that contain characters needing URL escaping (password) resp. the full base64 alphabet incl. + / = (API key, XSRF token); baseline (success) plus every single deviation of C09's alphabet at every answer point from the first login step on; after each run every file below the base directory (session logs .login/.config/.change/.cmp, run log, history, status, lock), stdout and stderr are scanned for each secret in plain, query-escaped, path-escaped, XML-escaped, plus-as-blank form and for every 8-byte window of it; non-trivial = runs with a deviation",
 			Assumptions: []string{"the device does not echo at password prompts (a real device does not); a device that printed a secret itself is outside"},
 			Bounds:      map[string]any{"deviations": "bound 1"},
 		}
